@@ -17,9 +17,10 @@ EXPLANATION = (
     "symbolic instants and a counting chain: no exception, every loop iteration entered with time left takes at least one "
     "whole step, the loop ends at the first check with the budget used up. ChainPool.advance with Pool replaced by its "
     "in-process map contract advances every chain once by n and keeps their order."
+    " ChainPool: 1..4 chains on a machine with 1..3 cores (cpu_count is an environment stub), advanced twice; every chain exactly n steps per call, returned in the caller's order."
 )
 BOUNDS = {"quick": "advance: all m >= 0; ensemble k<=2, 3 walkers, 2 calls; run_for: <=3 loop iterations, step rates <= 3 per second "
-                   "(slow steps) plus the zero-elapsed-time corner; pool of 2 chains",
+                   "(slow steps) plus the zero-elapsed-time corner; pools of 1..4 chains on 1..3 cores",
           "thorough": "ensemble k<=3; run_for <=4 loop iterations"}
 TECHNIQUE = "AST-to-SMT integer encoding of MarkovChain.advance with loop summarisation (z3, all m >= 0) validated against the real method; symbolic execution of ensemble advance / run_for with a symbolic clock (z3 per-path queries); counterexamples replayed"
 ASSUMPTIONS = [
@@ -190,11 +191,21 @@ def chain_pool_advances_every_chain_once(h):
         def map(self, f, items):
             return [f(x) for x in items]
     h.patch(par, both=True, Pool=PoolStub)
-    logs = [[], []]
-    chains = [CountingChain(logs[0]), CountingChain(logs[1])]
-    pool = par.ChainPool(chains)
+    # the machine is part of the environment: any positive number of cores
+    cores = h.choice_int("cpu_count", 1, 3)
+    import multiprocessing
+    import os
+    for m in (par, multiprocessing, os):
+        h.patch(m, both=True, cpu_count=lambda: cores)
+    nch = h.choice_int("number of chains", 1, 4)
+    logs = [[] for _ in range(nch)]
+    chains = [CountingChain(lg) for lg in logs]
+    pool = par.ChainPool(list(chains))
     n = h.choice_int("n", 0, 3) * 50 + h.choice_int("r", 0, 2)
     pool.advance(n)
-    h.same("pool size", pool.pool_size, 2)
-    h.same("every chain advanced by exactly n steps", [len(l) for l in logs], [n, n])
-    h.same("chains returned in the same order", [c is d for c, d in zip(pool.chains, chains)], [True, True])
+    h.same("every chain advanced by exactly n steps", [len(lg) for lg in logs], [n] * nch)
+    h.same("chains returned in the same order", [c is d for c, d in zip(pool.chains, chains)], [True] * nch)
+    h.same("as many chains returned as were given", len(pool.chains), nch)
+    pool.advance(n)
+    h.same("second advance: every chain advanced by exactly n more steps", [len(lg) for lg in logs], [2 * n] * nch)
+    h.same("second advance: chains still in the caller's order", [c is d for c, d in zip(pool.chains, chains)], [True] * nch)
